@@ -78,13 +78,28 @@ theorem to_float_assert_is_generated (p : Nat) : qToFloatAssertFails p = ! to_fl
   · have : p > 0 := by omega
     simp [h, this]
 
-/-- rational `Repr::to_float`: the sum that overflows `usize` for `precision + den_digits > usize::MAX` (finding
-    to_float_precision_overflow) is the one both the no-scaling test and `shift` use -/
+/-- rational `Repr::to_float` since fix 43925c0: `need_digits = precision.saturating_add(den_digits)` is the one value both
+    the no-scaling test and `shift` use (before the fix: the unchecked sum, finding to_float_precision_overflow) -/
 theorem to_float_shift_is_generated (p nd dd : Nat) :
-    to_float_no_scaling p nd dd = decide (nd ≥ p + dd) ∧ to_float_shift p nd dd = (p + dd) - nd := by
-  unfold to_float_no_scaling to_float_shift
-  exact ⟨rfl, rfl⟩
+    to_float_need_digits usizeMax p dd = qToFloatNeedDigits p dd ∧
+    to_float_no_scaling usizeMax p nd dd = decide (nd ≥ qToFloatNeedDigits p dd) ∧
+    to_float_shift usizeMax p nd dd = qToFloatShift p nd dd := by
+  unfold to_float_no_scaling to_float_shift to_float_need_digits qToFloatShift qToFloatNeedDigits
+  exact ⟨rfl, rfl, rfl⟩
 
+/-- no `usize` value is exceeded any more: for machine arguments `need_digits` and `shift` are machine numbers, and
+    `need_digits` is the true sum whenever that fits (so the repaired code differs from exact arithmetic only where the
+    scaled numerator could not be allocated anyway: `shift ≥ usize::MAX − num_digits` digits) -/
+theorem to_float_need_digits_in_usize (p nd dd : Nat) :
+    to_float_need_digits usizeMax p dd ≤ usizeMax ∧ to_float_shift usizeMax p nd dd ≤ usizeMax ∧
+    (p + dd ≤ usizeMax → to_float_need_digits usizeMax p dd = p + dd) ∧
+    (usizeMax < p + dd → to_float_need_digits usizeMax p dd = usizeMax) := by
+  unfold to_float_shift to_float_need_digits
+  refine ⟨Nat.min_le_right _ _, Nat.le_trans (Nat.sub_le _ _) (Nat.min_le_right _ _), ?_, ?_⟩
+  · intro h; exact Nat.min_eq_left h
+  · intro h; exact Nat.min_eq_right (Nat.le_of_lt h)
+
+example : to_float_shift usizeMax usizeMax 0 1 = usizeMax := by decide   -- RBig 1/10 at precision usize::MAX (the old witness)
 example : from_chunks_result_len 1 3 8 = 18 := by decide
 example : max_exp_shortcut 64 (2 ^ 32) = true ∧ max_exp_shortcut 64 (2 ^ 32 - 1) = false := by decide
 example : max_exp_start bitLen 64 10 = 16 := by decide
